@@ -95,6 +95,7 @@ pub fn build_world(c: &Case, p: &Plan) -> World {
 }
 
 #[derive(Debug)]
+#[allow(dead_code)]
 pub enum RErr {
     Insufficient(i64),
     Change(i64),
